@@ -7,6 +7,7 @@ package main
 // lacks them it falls back to the plain build (writers_noext.go) and reports the broken tie.
 
 import (
+	corev3 "github.com/envoyproxy/go-control-plane/envoy/config/core/v3"
 	discovery "github.com/envoyproxy/go-control-plane/envoy/service/discovery/v3"
 
 	"istio.io/istio/pilot/pkg/model"
@@ -25,6 +26,11 @@ func extProcessDelta(s *pxds.DiscoveryServer, req *discovery.DeltaDiscoveryReque
 
 func extPushDelta(s *pxds.DiscoveryServer, con *pxds.Connection, req *model.PushRequest) error {
 	return pxds.VerifC06PushConnectionDelta(s, con, req)
+}
+
+// extConnect runs the REAL DiscoveryServer.initConnection for the xDS Node of a proxy with these attributes.
+func extConnect(s *pxds.DiscoveryServer, node *corev3.Node, delta bool) (*pxds.Connection, *model.Proxy, error) {
+	return pxds.VerifC06InitConnection(s, node, delta, &sinkStream{}, &sinkDeltaStream{})
 }
 
 func extDumpTypes(s *pxds.DiscoveryServer, con *pxds.Connection, types []string) {
